@@ -343,6 +343,18 @@ fn run_cases(mode: &str, cases: &str, outp: &str) {
             .unwrap_or_default();
         LAST_PANIC_LOC.with(|c| *c.borrow_mut() = loc);
     }));
+    // watchdog: a case that runs longer than the limit ends the process with status 97; the caller
+    // attributes it to the case that was running (BEGIN without END) and restarts after it
+    static CASE_START_MS: std::sync::atomic::AtomicU64 = std::sync::atomic::AtomicU64::new(0);
+    let limit_ms: u64 = std::env::var("VH_CASE_TIMEOUT_MS").ok().and_then(|v| v.parse().ok()).unwrap_or(20_000);
+    let t0 = std::time::Instant::now();
+    std::thread::spawn(move || loop {
+        std::thread::sleep(std::time::Duration::from_millis(50));
+        let st = CASE_START_MS.load(std::sync::atomic::Ordering::Relaxed);
+        if st != 0 && (t0.elapsed().as_millis() as u64).saturating_sub(st) > limit_ms {
+            std::process::exit(97);
+        }
+    });
     let f = std::fs::File::open(cases).expect("cases file");
     let mut w = BufWriter::new(std::fs::File::create(outp).expect("out file"));
     for line in std::io::BufReader::new(f).lines() {
@@ -362,11 +374,15 @@ fn run_cases(mode: &str, cases: &str, outp: &str) {
             }
         };
         let mut buf = String::new();
+        let case_t0 = std::time::Instant::now();
+        CASE_START_MS.store(t0.elapsed().as_millis() as u64 + 1, std::sync::atomic::Ordering::Relaxed);
         let r = catch_unwind(AssertUnwindSafe(|| match mode {
             "trace" => trace_case(&cfg, &cursors, &input, &mut buf),
             _ => fmt_case(&cfg, &cursors, &input, &mut buf),
         }));
+        CASE_START_MS.store(0, std::sync::atomic::Ordering::Relaxed);
         w.write_all(buf.as_bytes()).unwrap();
+        writeln!(w, "TIME {}", case_t0.elapsed().as_millis()).unwrap();
         if let Err(e) = r {
             let loc = LAST_PANIC_LOC.with(|c| c.borrow().clone());
             writeln!(w, "PANIC {} {}", loc, hex(panic_msg(e).as_bytes())).unwrap();
